@@ -1078,6 +1078,43 @@ def extract_add_dependency_body(repo):
             not (isinstance(n, ast.Expr) and isinstance(getattr(n, 'value', None), ast.Constant))]
 
 
+def extract_purge_queue_body(repo):
+    """Evolver.queue_purge_old_apps: which apps a purge is queued for - the statements of the method"""
+    tree = ast.parse(_src(repo, 'django_evolution/evolve/evolver.py'))
+    cls = _find_class(tree, 'Evolver')
+    fn = _find_func(cls, 'queue_purge_old_apps')
+    return [ast.unparse(n).replace('\n', ' ; ') for n in fn.body
+            if not (isinstance(n, ast.Expr) and isinstance(getattr(n, 'value', None), ast.Constant))]
+
+
+def extract_is_mutable_database(repo):
+    """BaseModelMutation.is_mutable: the database a model's mutation is attributed to (the assignment to `db_name`)
+    and what is returned"""
+    tree = ast.parse(_src(repo, 'django_evolution/mutations/base.py'))
+    cls = _find_class(tree, 'BaseModelMutation')
+    fn = _find_func(cls, 'is_mutable')
+    out = []
+    for n in ast.walk(fn):
+        if isinstance(n, ast.Assign) and ast.unparse(n.targets[0]) == 'db_name':
+            out.append(ast.unparse(n))
+        if isinstance(n, ast.Return):
+            out.append(ast.unparse(n))
+    return out
+
+
+def extract_initial_value_rule(repo):
+    """Diff._get_initial_value: the test under which a hinted mutation takes the field's own default instead of
+    asking the user for a value"""
+    tree = ast.parse(_src(repo, 'django_evolution/diff.py'))
+    cls = _find_class(tree, 'Diff')
+    fn = _find_func(cls, '_get_initial_value')
+    tests = [ast.unparse(n.test) for n in ast.walk(fn) if isinstance(n, ast.If) and
+             any(isinstance(b, ast.Return) and 'get_default' in ast.unparse(b) for b in n.body)]
+    if len(tests) != 1:
+        raise ExtractError('_get_initial_value: expected one test that returns field.get_default()')
+    return tests[0]
+
+
 def extract_found_reset_per_label(repo):
     """get_app_mutations: the flag that says "an SQL file was found for this label" is set to False INSIDE the loop
     over the labels (once per label), so that a label without an SQL file falls back to its Python module whatever
@@ -1361,6 +1398,18 @@ def regenerate(repo, outdir):
     flags['found_reset_per_label'] = frl
     parts.append('/-- get_app_mutations forgets, for every label, whether an earlier label was shipped as an SQL file -/')
     parts.append('def foundResetPerLabel : Bool := ' + ('true' if frl else 'false'))
+    pqb = extract_purge_queue_body(repo)
+    flags['purge_queue_body'] = pqb
+    parts.append('/-- Evolver.queue_purge_old_apps -/')
+    parts.append('def purgeQueueBody : List String := ' + lean_list(lean_str(x) for x in pqb))
+    imd = extract_is_mutable_database(repo)
+    flags['is_mutable_database'] = imd
+    parts.append('/-- BaseModelMutation.is_mutable: the database a mutation is attributed to, and the answers -/')
+    parts.append('def isMutableDatabase : List String := ' + lean_list(lean_str(x) for x in imd))
+    ivr = extract_initial_value_rule(repo)
+    flags['initial_value_rule'] = ivr
+    parts.append('/-- Diff._get_initial_value: when the field\'s own default is taken -/')
+    parts.append('def initialValueRule : String := ' + lean_str(ivr))
     rmw = extract_rename_model_ref_walk(repo)
     flags['rename_model_ref_walk'] = rmw
     parts.append('/-- RenameModel.simulate: the walk that re-points references to the renamed model -/')
